@@ -396,21 +396,24 @@ def make_case(rng, lits):
     # the layout between clauses is white space of the grammar: LF, CR LF, lone CR, blanks, tabs
     sep = rng.choice(['\n', '\n', '\r\n', '\r\n', '\r', '\n\n', ' ', '\t\r\n ', '\r\r\n'])
     src = sep.join(ast_io.clause_text(c) for c in clauses) + sep
+    # the part of the program that is also given to the compiler through its other entry points (parsing dominates the cost)
+    small = [c for c in clauses if c[0].startswith(('fact', 'body', 'at'))]
+    src_min = sep.join(ast_io.clause_text(c) for c in small) + sep
     pool = (atoms or ['a']) + ['[]', 'zz', '']
     calls = [[rng.random() < 0.4, rng.choice(pool)] for _ in range(rng.choice([4, 8, 12, 16]))]
-    return {'src': src, 'lits': lits, 'envs': envs, 'atoms': atoms, 'muts': muts, 'clauses': clauses, 'atom_calls': calls,
-            'cli_sub': rng.random() < 0.06}
+    return {'src': src, 'src_min': src_min, 'lits': lits, 'envs': envs, 'atoms': atoms, 'muts': muts, 'clauses': clauses, 'atom_calls': calls,
+            'cli_sub': rng.random() < 0.06, 'file_opts': rng.random() < 0.5}
 
 def gen(rng, tier):
-    n = 115 if tier == 'quick' else 2000
+    n = 100 if tier == 'quick' else 1800
     cases = []
     for _ in range(n):
         lits = [rnd_lit(rng, rng.choice([0, 1, 2, 2, 3, 3, 4, 6])) for _ in range(rng.choice([1, 2, 3, 4]))]
         cases.append(make_case(rng, lits))
-    for _ in range(45 if tier == 'quick' else 800):
+    for _ in range(40 if tier == 'quick' else 600):
         # different literals of ONE program whose texts coincide when the quotes are left out
         cases.append(make_case(rng, ambiguous_group(rng)))
-    for _ in range(12 if tier == 'quick' else 200):
+    for _ in range(12 if tier == 'quick' else 150):
         # atoms full of characters that text layers treat specially, alone and inside terms
         lits = [['atom', rnd_text_layer_atom(rng)], ['fun', rng.choice(FNAMES), [['atom', rnd_text_layer_atom(rng)], ['list', [['atom', rnd_text_layer_atom(rng)]]]]]]
         if rng.random() < 0.5:
@@ -608,28 +611,52 @@ def _observe_min(E, code, case):
     return {'lits': lits, 'atoms': atoms}
 
 def _entry_points(E, case, code):
-    """the same source text given to the compiler in every way there is: as a string (with the default options and with an
-    options class), as a file holding exactly the UTF-8 bytes of the text, through the command line from a file and from
-    standard input.  -> name -> ['same'] (same Python text as `code`) | ['differs', same denotations?, detail] | ['raised', ..]"""
+    """The facts fact_i(L), the rules body_i(R) :- R = L and the facts at_j(A) of the program (same text, same layout) given to
+    the compiler in every way there is: as a string, as a file holding exactly the UTF-8 bytes of the text (with the default
+    options or an options class), through the command line from a file and from standard input.
+    -> name -> ['same'] (denotes what the whole program compiled from a string denotes; for the other entry points: same
+    Python text as from the string) | ['differs', same denotations?, detail] | ['raised', ..]"""
     from yldprolog import compiler
-    src = case['src']
+    src = case['src_min']
+    main_obs = _observe_min(E, code, case)
+    def judge(text):
+        try:
+            obs = _observe_min(E, text, case)
+        except Exception as e:
+            return ['differs', False, 'its output cannot be loaded / queried: %s' % type(e).__name__]
+        detail = ''
+        if obs != main_obs:
+            for i, (a, b) in enumerate(zip(obs['lits'], main_obs['lits'])):
+                if a != b:
+                    detail = 'literal %d denotes %r, in the whole program compiled from a string %r' % (i, a[0][:1], b[0][:1])
+                    break
+            else:
+                detail = 'the atoms differ'
+        return ['differs', obs == main_obs, detail[:400]]
+    out = {}
+    try:
+        min_code = compiler.compile_prolog_from_string(src)
+    except RecursionError:
+        return {'string': ['skipped', 'RecursionError']}
+    except Exception as e:
+        return {'string': ['raised', type(e).__name__, str(e)[:200]]}
+    r = judge(min_code)
+    out['string'] = ['same'] if r[1] else r
     try:
         data = src.encode('utf8')
     except UnicodeEncodeError:
-        return {'file': ['skipped', 'the text has no UTF-8 form']}
+        out['file'] = ['skipped', 'the text has no UTF-8 form']
+        return out
     d = _scratch()
     path = os.path.join(d, 'prog.prolog')
     with open(path, 'wb') as f:
         f.write(data)
-    runs = [('string_options', lambda: compiler.compile_prolog_from_string(src, ast_io.Ctx)),
-            ('file', lambda: compiler.compile_prolog_from_file(path)),
-            ('file_options', lambda: compiler.compile_prolog_from_file(path, ast_io.Ctx)),
+    opts = (ast_io.Ctx,) if case.get('file_opts') else ()
+    runs = [('file', lambda: compiler.compile_prolog_from_file(path, *opts)),
             ('cli_file', lambda: _cli_inprocess([path], b'', d)),
             ('cli_stdin', lambda: _cli_inprocess(['-'], data, d))]
     if case.get('cli_sub'):
         runs += [('real_cli_file', lambda: _cli_real([path], b'', d)), ('real_cli_stdin', lambda: _cli_real(['-'], data, d))]
-    out = {}
-    main_obs = None
     for name, fn in runs:
         try:
             text = fn()
@@ -639,25 +666,7 @@ def _entry_points(E, case, code):
         except BaseException as e:
             out[name] = ['raised', type(e).__name__, str(e)[:200]]
             continue
-        if text == code:
-            out[name] = ['same']
-            continue
-        try:
-            if main_obs is None:
-                main_obs = _observe_min(E, code, case)
-            obs = _observe_min(E, text, case)
-        except Exception as e:
-            out[name] = ['differs', False, 'its output cannot be loaded / queried: %s' % type(e).__name__]
-            continue
-        detail = ''
-        if obs != main_obs:
-            for i, (a, b) in enumerate(zip(obs['lits'], main_obs['lits'])):
-                if a != b:
-                    detail = 'literal %d denotes %r, compiled from the string %r' % (i, a[0][:1], b[0][:1])
-                    break
-            else:
-                detail = 'the atoms differ'
-        out[name] = ['differs', obs == main_obs, detail[:400]]
+        out[name] = ['same'] if text == min_code else judge(text)
     shutil.rmtree(d, ignore_errors=True)
     return out
 
@@ -883,8 +892,8 @@ def _expected_from(lits, case, io):
             return 'literal %d: query variable still bound after the query' % i
     return None
 
-ENTRY_NAMES = {'string_options': 'compile_prolog_from_string with an options class', 'file': 'compile_prolog_from_file (the UTF-8 bytes of the same text)',
-               'file_options': 'compile_prolog_from_file with an options class', 'cli_file': 'the command line reading the file',
+ENTRY_NAMES = {'string': 'compile_prolog_from_string (the fact_i / body_i / at_j clauses alone)', 'file': 'compile_prolog_from_file (the UTF-8 bytes of the same text)',
+               'cli_file': 'the command line reading the file',
                'cli_stdin': 'the command line reading standard input', 'real_cli_file': 'python -m yldprolog.compiler <file>',
                'real_cli_stdin': 'python -m yldprolog.compiler - (standard input)'}
 
